@@ -23,12 +23,14 @@ import (
 	"os"
 	"path/filepath"
 	"regexp"
+	"runtime"
 	"sort"
 	"strconv"
 	"strings"
 	"sync"
 	"testing"
 	"testing/synctest"
+	"time"
 
 	"github.com/ollama/ollama/api"
 	"github.com/ollama/ollama/zzverif"
@@ -317,4 +319,77 @@ func c3BigLines(r *zzverif.Rng, thorough bool) []string {
 		lines = append(lines, mk(12, func(i int) string { return []string{"fail", "ok", "half"}[i%3] }), mk(16, cyc))
 	}
 	return lines
+}
+
+// ---------------------------------------------------------------- F21: the caller goes away before Run has started
+
+type c3CancelAfterManifest struct {
+	inner  *c3Net
+	cancel context.CancelFunc
+}
+
+func (n c3CancelAfterManifest) RoundTrip(req *http.Request) (*http.Response, error) {
+	resp, err := n.inner.RoundTrip(req)
+	if strings.Contains(req.URL.Path, "/manifests/") {
+		n.cancel() // e.g. ctrl-c of `ollama pull` / the API client disconnects right after the manifest was served
+	}
+	return resp, err
+}
+
+// TestVerifC03F21: resume records exist (so Prepare makes no request) and the caller's context is cancelled
+// between the manifest response and blobDownload.Wait.  Wait returns at once and its deferred release() calls
+// b.CancelFunc, which the Run goroutine has not assigned yet.  L2: no panic; the pull reports the cancellation.
+func TestVerifC03F21(t *testing.T) {
+	if os.Getenv("VERIF_OUT") == "" {
+		t.Skip("verification driver; run through /verif/check")
+	}
+	out := zzverif.NewOut()
+	defer out.Close()
+	c3Setup(t, t.TempDir())
+	caseLine := "f21 one layer with resume records [0/27/0]; caller context cancelled right after the manifest response; honest registry"
+	for i := 0; i < zzverif.EnvInt("VERIF_NF21", 5); i++ {
+		c := c3NewCase("f21")
+		A := []byte("layer-A-contents-0123456789")
+		dA := c.addLayer(A, false)
+		c.partials = []c3Partial{{dig: dA, hasData: true, data: make([]byte, len(A)), parts: []c3Part{{0, int64(len(A)), 0}}}}
+		c.fixUniv()
+		models := filepath.Join(t.TempDir(), "models")
+		c3Materialise(c, models)
+		os.Setenv("OLLAMA_MODELS", models)
+		old := http.DefaultTransport
+		res := ""
+		synctest.Test(t, func(t *testing.T) {
+			ctx, cancel := context.WithCancel(context.Background())
+			defer cancel()
+			http.DefaultTransport = c3CancelAfterManifest{c3NewNet(c, &c3Attempt{}, models), cancel}
+			func() {
+				defer func() {
+					if r := recover(); r != nil {
+						buf := make([]byte, 1<<16)
+						buf = buf[:runtime.Stack(buf, false)]
+						site := "unknown"
+						if strings.Contains(string(buf), "blobDownload).release") {
+							site = "release"
+						}
+						res = fmt.Sprintf("panic site=%s: %v", site, r)
+					}
+				}()
+				res = c3Classify(PullModel(ctx, c3ModelName(0), &registryOptions{}, func(api.ProgressResponse) {}))
+			}()
+			time.Sleep(1000 * time.Second) // a download that was not cancelled runs on in the background
+			synctest.Wait()
+		})
+		http.DefaultTransport = old
+		c3ResetManager()
+		out.Count("f21_runs")
+		switch {
+		case strings.HasPrefix(res, "panic"):
+			out.Count("f21_panics")
+			out.L2("panic", caseLine, strings.TrimPrefix(res, "panic ")+" (blobDownload.CancelFunc is still nil: it is assigned inside the Run goroutine)")
+		case res != "err:canceled":
+			out.L2("cancel-not-reported", caseLine, "PullModel returned "+res+" for a cancelled context")
+		default:
+			out.Count("f21_canceled_cleanly")
+		}
+	}
 }
